@@ -174,12 +174,14 @@ func idxgenHdrTable(file []byte) Val {
 	return hdrs
 }
 
+var c03SourceNames = []string{"bytes.Reader", "read-seeker", "plain-reader", "os.File", "reader-at", "bufio.Reader", "bytes.Buffer"}
+
 func emitIdxGen(c *Ctx, kind uint64, o gOpts, file []byte, codec uint64, qs []cid.Cid, expect Val, nontrivial bool) {
 	hdrs := idxgenHdrTable(file)
 	in := VL{VN(kind), o.val(), VB(file), hdrs, VN(codec), cidsVal(qs), expect}
 	obs := runIdxGenImpl(c, kind, o, file, codec, qs)
 	c.Emit("idxgen", in, obs, nontrivial)
-	c.Count("source:" + []string{"bytes.Reader", "read-seeker", "plain-reader", "os.File", "reader-at"}[kind])
+	c.Count("source:" + c03SourceNames[kind])
 	if l, ok := obs.(VL); ok && len(l) > 1 {
 		if t, _ := l[0].(VT); t == "err" {
 			c.Count("outcome:err-" + string(l[1].(VT)))
@@ -220,14 +222,14 @@ func c03Malformed(c *Ctx, r *RNG, a c03Archive, qs []cid.Cid, budget int) {
 		}
 		c.Count("malformed:" + what)
 	}
-	all := []uint64{0, 1, 2, 3, 4}
-	noFile := []uint64{0, 1, 2, 4}
+	all := []uint64{0, 1, 2, 3, 4, 5, 6}
+	noFile := []uint64{0, 1, 2, 4, 5, 6}
 	// truncations: every prefix of a small archive, sampled otherwise
 	for k := 0; k < len(a.file); k++ {
 		if len(a.file) > 120 && !(c.Thorough && len(a.file) <= 400) && r.Intn(len(a.file)/40+1) != 0 {
 			continue
 		}
-		emit(a.file[:k], "truncated", []uint64{pick(r, all), 2})
+		emit(a.file[:k], "truncated", []uint64{pick(r, all), pick(r, []uint64{2, 5, 6})})
 	}
 	for n := 0; n < budget; n++ {
 		g := append([]byte(nil), a.file...)
@@ -331,7 +333,7 @@ func init() {
 					c.Count("opts:zero-length-as-eof")
 				}
 				for _, codec := range c03Codecs {
-					for kind := uint64(0); kind < 5; kind++ {
+					for kind := uint64(0); kind < uint64(len(c03SourceNames)); kind++ {
 						emitIdxGen(c, kind, o, a.file, codec, qs, expect, len(a.blks) >= 2 && feat)
 					}
 				}
